@@ -59,6 +59,15 @@ def run(tier, seed):
     for a, b in cross:
         cases.append({"id": len(cases), "a": a, "b": b})
         cases.append({"id": len(cases), "a": b, "b": a})
+    # values of DIFFERENT struct types with the same field names (Q), or with them as a prefix (R3): written
+    # with the fields in the same order on both sides (same=True) and in opposite orders
+    sx = [(vp.ST(vp.I(1), vp.S("s")), vp.STQ(vp.I(1), vp.S("s"))), (vp.ST(vp.I(1), vp.S("s")), vp.STR3(vp.I(1), vp.S("s"), vp.I(0))),
+          (vp.STQ(vp.I(1), vp.S("s")), vp.STR3(vp.I(1), vp.S("s"), vp.I(0))), (vp.L(vp.ST(vp.I(1), vp.S("s"))), vp.L(vp.STQ(vp.I(1), vp.S("s")))),
+          (vp.E("Some", vp.ST(vp.I(2), vp.S(""))), vp.E("Some", vp.STQ(vp.I(2), vp.S("")))), (vp.ST(vp.I(1), vp.S("s")), vp.ST(vp.I(1), vp.S("s")))]
+    for a, b in sx:
+        for x, y in ((a, b), (b, a)):
+            cases.append({"id": len(cases), "a": x, "b": y})
+            cases.append({"id": len(cases), "a": x, "b": y, "same": True})
     d = scratch_dir("c13")
     try:
         path = os.path.join(d, "cases.ndjson")
@@ -73,7 +82,7 @@ def run(tier, seed):
         raise ToolError(f"EvalDisplay printed {len(exp)} results for {len(cases)} pairs")
     recs = []
     for c in cases:
-        a, b = vp.src(c["a"]), vp.src_alt(c["b"])
+        a, b = vp.src(c["a"]), (vp.src(c["b"]) if c.get("same") else vp.src_alt(c["b"]))
         recs.append({"id": c["id"], "src": vp.PRE + f"let va = {a}\nlet vb = {b}\nprintln(string_repr(va == vb))\nprintln(string_repr(va != vb))\nprintln(string_repr(vb == va))"})
     out = batch("run", recs)
     ntrue = 0
